@@ -64,7 +64,7 @@ PROPS["C03"] = {
     "level_text": "Complete groups: tiny curves found by reference point counting are installed through the public ep_curve_set_plain/endom API; on ~1000-point curves (prime order, cofactor 2/4 with order-two points, a = -3/0/1/2, GLV) the complete Cayley table is run through every addition/doubling formula (affine, projective, Jacobian) in every operand representation and alias pattern; "
                   "on 16-bit prime-order curves (plain, GLV, generic a) every scalar in [-2n-3, 2n+3] through every variable-base, fixed-base (basic, single/double comb, w-NAF tables), generator, digit and simultaneous routine, every scalar pair in [-n-2, n+2]^2 for the simultaneous forms, many-point forms with n in {0..4, 9..12, 33}. "
                   "The six 256-bit curves run a scalar alphabet (0, +-1, n-1, n, n+1, 2n, multiples, 2^k boundaries, longer than n up to 2^1000-1, GLV boundary neighbourhood) against the same reference.",
-    "level_note": "Trusted: GMP-based affine reference (ref_ec.h), harness glue reading points by coordinate flag. Fixed-base tables are only built on tiny curves whose order has the bit length of the field (tiny_exclusion otherwise). W8 RNG never yields a zero blinding factor. Not reached: defects needing a specific 256-bit scalar outside the alphabet with no tiny analogue.",
+    "level_note": "Trusted: GMP-based affine reference (ref_ec.h), harness glue reading points by coordinate flag. Fixed-base tables are only built on tiny curves whose order has the bit length of the field (tiny_exclusion otherwise). W8 RNG never yields a zero blinding factor. Not reached: defects needing a specific 256-bit scalar outside the alphabet with no tiny analogue. The thorough tier also runs the 446-bit builds (BN_P446; B12_P446 where its twist is defined, i.e. under FP_QNRES).",
     "rule": "cases are (curve, operation group, points, scalars); tiny worlds: complete point lists / scalar ranges by odometer; W64: alphabet products; all cases count as non-trivial (each involves at least one group operation); distinct by 64-bit hash; transitions = individual routine results compared with the reference.",
     "assumptions": ["reference group law in ref_ec.h", "calls inside RLC_TRY", "DRBG/RNG re-seeded identically before every randomised routine"],
     "jobs": [
@@ -73,6 +73,7 @@ PROPS["C03"] = {
         {"name": "ep-w8-jacob", "world": "W8-jacob", "src": "props/C03_ep.c", "tiers": ("thorough",)},
         {"name": "ep-w8-basic", "world": "W8-basic", "src": "props/C03_ep.c", "tiers": ("thorough",)},
         {"name": "ep-w64-381", "world": "W64-381", "src": "props/C03_ep.c", "tiers": ("thorough",)},
+        {"name": "ep-w64-446", "world": "W64-446", "src": "props/C03_ep.c", "tiers": ("thorough",)},
         {"name": "ep-w64-255", "world": "W64-255", "src": "props/C03_ep.c", "tiers": ("thorough",)},
     ],
 }
@@ -82,7 +83,7 @@ PROPS["C11"] = {
     "technique": "explicit-state enumeration of complete tiny elliptic-curve groups over F_p^2 (full Cayley tables per coefficient class, every scalar in [-2r-3, 2r+3] for every routine) built with the real ep2_* code at 8-bit digits, plus point/scalar alphabet products on the BN_P256 / SM9_P256 twists including twist points outside G2, against an affine chord-and-tangent reference over F_p[u]/(u^2 - beta) on GMP",
     "level_text": "Complete groups: curves over F_p^2 (p = 23, 29, 251) found by reference point counting are installed through the public ep2_curve_set API; on ~530-point curves (a = -3, 0, 1, 2, one-digit, general; an even-order curve with order-two points; p = 1 mod 4) the complete Cayley table is run through every addition/doubling formula (affine, projective, Jacobian) in every operand representation and alias pattern; on 16-bit prime-order curves every scalar in [-2r-3, 2r+3] through every variable-base, fixed-base, generator, digit and simultaneous routine. "
                   "On the 256-bit twists: G2 members and twist points outside G2 (x = i + j u lifted by reference square root), scalar alphabet incl. GLS boundary values, the Frobenius endomorphism (eigenvalue p on G2, additivity, characteristic equation psi^2 - [t]psi + [p] = 0 on every enumerated twist point, powers 1..4) and cofactor clearing ([r]R' = identity, R' = identity only if [h]R is).",
-    "level_note": "Trusted: ref_ec2.h (F_p^2 by definition with beta = u^2 learned from the library and validated as a non-residue), harness glue. Tiny curves have no twist structure, so Frobenius-based routines (ep2_frb, GLS recodings, fast cofactor clearing) are judged at 256 bits only. Recoding-based multiplications (lwnaf, lwreg, fixed-base) are judged on points of the order-r subgroup (they reduce the scalar modulo r). Curves over cubic/quartic/octic extensions (ep3/ep4/ep8) are not driven: their pairing families need separate field-size builds and a reference over those towers; listed as not reached.",
+    "level_note": "Trusted: ref_ec2.h (F_p^2 by definition with beta = u^2 learned from the library and validated as a non-residue), harness glue. Tiny curves have no twist structure, so Frobenius-based routines (ep2_frb, GLS recodings, fast cofactor clearing) are judged at 256 bits only. Recoding-based multiplications (lwnaf, lwreg, fixed-base) are judged on points of the order-r subgroup (they reduce the scalar modulo r). Curves over cubic/quartic/octic extensions (ep3/ep4/ep8) are not driven: their pairing families need separate field-size builds and a reference over those towers; listed as not reached. The thorough tier also runs the 446-bit builds (BN_P446; B12_P446 where its twist is defined, i.e. under FP_QNRES).",
     "rule": "cases are (curve, operation group, points, scalars); tiny worlds: complete point lists / scalar ranges by odometer; W64: alphabet products; all cases non-trivial; distinct by 64-bit hash; transitions = individual routine results compared with the reference.",
     "assumptions": ["reference group law in ref_ec2.h", "calls inside RLC_TRY", "DRBG/RNG re-seeded identically before every randomised routine"],
     "jobs": [
@@ -100,7 +101,7 @@ PROPS["C12"] = {
     "level": "model_checking",
     "technique": "bounded exhaustive enumeration of constructed candidate sets (members, identity, off-curve, curve/twist points outside the order-r subgroup, cofactor parts, small-order points, member + non-member; target-field elements outside the cyclotomic subgroup, cyclotomic elements of order not dividing r) through the real membership predicates, and of scalar alphabets through every g1_/g2_/gt_ multiplication form, against the definition evaluated by reference group laws and a reference quotient-ring tower on GMP",
     "level_text": "Per parameter set (BN_P256 with D-type twist, SM9_P256 with M-type twist; B12_P381 in the 381-bit build, where G1 has a cofactor): the expected verdict of g1_is_valid / g2_is_valid / gt_is_valid is the definition itself -- on the curve, not the identity, annihilated by r -- computed by plain reference multiplication / exponentiation (no endomorphism shortcut). Candidates are built by the reference: multiples of the generators, off-curve neighbours, points lifted from small x (outside the subgroup when a cofactor exists), their [r]- and [h]-multiples, sums member + cofactor part, points of every prime order < 2^20 dividing the cofactor, points of another twist; GT: powers of the generator, 0, 1, -1, -g, sparse and dense field elements, their images under the easy part of the final exponentiation (cyclotomic, order not dividing r), those times a member, and their images under the hard part (members unrelated to the generator). Exponentiation: g1/g2 mul, mul_sec, mul_any, mul_dig, mul_gen, mul_fix, mul_sim, mul_sim_lot, mul_sim_gen and gt_exp, gt_exp_sec, gt_exp_dig, gt_exp_gen, gt_exp_sim for scalars 0, +-1, r-1, r, r+1, 2r, 2^k boundaries, longer than r, negative, curve-parameter multiples.",
-    "level_note": "Trusted: ref_ec.h / ref_ec2.h group laws, ref_ext.h tower with each level's constant read from the library and validated irreducible, twist type derived from the coefficients (b' = b/xi or b*xi). The k = 8, 16, 18, 24, 48 families need their own field-size builds and references over ep3/ep4/ep8 and are not driven.",
+    "level_note": "Trusted: ref_ec.h / ref_ec2.h group laws, ref_ext.h tower with each level's constant read from the library and validated irreducible, twist type derived from the coefficients (b' = b/xi or b*xi). The k = 8, 16, 18, 24, 48 families need their own field-size builds and references over ep3/ep4/ep8 and are not driven. The thorough tier also runs the 446-bit builds (BN_P446; B12_P446 where its twist is defined, i.e. under FP_QNRES).",
     "rule": "cases are (parameter set, predicate or routine, candidate / base, scalar(s)); all counted non-trivial; distinct by 64-bit hash; transitions = individual verdicts / results compared with the reference.",
     "assumptions": ["reference group laws and tower", "calls inside RLC_TRY", "DRBG re-seeded identically before every randomised routine"],
     "jobs": [
@@ -115,7 +116,7 @@ PROPS["C04"] = {
     "level": "model_checking",
     "technique": "bounded exhaustive enumeration of (map, base points, scalar pair, operand representation) products and of multi-pairing lists with identities at every subset of positions through the real pairing code; oracle = the algebraic property itself with both sides computed independently: multiples [a]P, [b]Q by reference group laws, the power e(P,Q)^(ab) by a reference quotient-ring tower on GMP",
     "level_text": "Per parameter set (BN_P256/D-type, SM9_P256/M-type; B12_P381 in the 381-bit build) and per map (pc_map, optimal ate, Tate, Weil): E0 = e(P0, Q0) for three base pairs must not be 0 or 1 and must satisfy E0^r = 1 (reference power); e([a]P0, [b]Q0) must equal E0^(ab mod r) for every (a, b) in {0, 1, 2, -1, r-1, r, r+1, 2^64, a 200-bit value}^2 (thorough: 13 scalars), with operands in affine and projective form (four combinations) -- identity operands arise as a or b in {0, r}; multi-pairings pc_map_sim / pp_map_sim_* over m in 0..4 (thorough 0..6) pairs with an identity in the G1 slot, the G2 slot or both at EVERY subset of positions for m <= 3 and at each single position above must equal E0^(sum a_i b_i). gt_get_gen must equal pc_map of the generators.",
-    "level_note": "No reference pairing: the value E0 itself is not compared with an external implementation, only its algebraic properties (which characterise a non-degenerate bilinear map up to a fixed power). Trusted: reference group laws and tower as in C12. A toy pairing world is not used: tiny BN/BLS parameters make Miller-loop exceptional cases frequent that cannot occur for 256-bit r. The k = 8, 16, 18, 24, 48 families are not driven (separate builds).",
+    "level_note": "No reference pairing: the value E0 itself is not compared with an external implementation, only its algebraic properties (which characterise a non-degenerate bilinear map up to a fixed power). Trusted: reference group laws and tower as in C12. A toy pairing world is not used: tiny BN/BLS parameters make Miller-loop exceptional cases frequent that cannot occur for 256-bit r. The k = 8, 16, 18, 24, 48 families are not driven (separate builds). The thorough tier also runs the 446-bit builds (BN_P446; B12_P446 where its twist is defined, i.e. under FP_QNRES).",
     "rule": "cases are (set, map, base, a, b, repP, repQ) and (set, map, m, identity pattern, scalar pattern); all non-trivial; distinct by 64-bit hash; transitions = pairing values compared.",
     "assumptions": ["reference group laws and tower", "calls inside RLC_TRY"],
     "jobs": [
@@ -130,7 +131,7 @@ PROPS["C18"] = {
     "level": "model_checking",
     "technique": "exhaustive enumeration of the configuration space: every identifier value 0..255 is offered to fp_param_set, ep_param_set and eb_param_set in each verified build; every accepted parameter set is put through every consistency obligation, decided with GMP primality tests, reference group laws (prime, F_p^2, binary) and a reference quotient-ring tower, never with the library's own arithmetic",
     "level_text": "Per selectable set: p prime and of the configured size, Montgomery constants, non-residues, 2-adicity, sparse forms; curve non-singular, generator on the curve, r prime, [r]G = O, Hasse bound for r h, [r h]T = O for 8 independent curve points (with Hasse and r prime this pins the order), ep_mul_cof maps them into the subgroup and kills exactly what [h] kills, advertised level vs bits(r), coefficient-class flags; endomorphism curves: beta primitive cube root of unity, (beta x, y) = [lambda]G for a root of l^2 + l + 1 mod r, ep_psi agrees, GLV decomposition through the stored lattice satisfies k0 + k1 lambda = k mod r with half-length parts on 12 scalars; pairing sets: p and r equal the family polynomials at the stored parameter and its sparse form, r | Phi_12(p), r divides no p^j - 1 (j | 12, j < 12), twist type derived from b' (b/xi or b xi), G2 on the twist and of order r, Hasse over F_p^2, [r h2]T = O for 4 twist points, ep2_mul_cof lands in G2, psi(G2) = [p]G2, e(G1, G2) non-degenerate, of order r and equal to gt_get_gen; binary sets: f(z) irreducible by Rabin's test, curve non-singular, generator on the curve, r prime, [r]G = O, Hasse, [r h]T = O for 8 points built by half-trace, Koblitz flag, level.",
-    "level_note": "Worlds: the shipped 256/283-bit build, the 381-bit build (B12_P381) and the 255-bit build. Edwards parameter sets are decided in C17's harness (same obligations on the Edwards reference). The k = 8, 16, 18, 24, 48, 54 families and the other field sizes need one build each and are not visited: listed as not reached. Hash-to-curve constants are decided where they are used (C13).",
+    "level_note": "Worlds: the shipped 256/283-bit build, the 381-bit build (B12_P381) and the 255-bit build. Edwards parameter sets are decided in C17's harness (same obligations on the Edwards reference). The k = 8, 16, 18, 24, 48, 54 families and the other field sizes need one build each and are not visited: listed as not reached. Hash-to-curve constants are decided where they are used (C13). The thorough tier also runs the 446-bit builds (BN_P446; B12_P446 where its twist is defined, i.e. under FP_QNRES).",
     "rule": "cases are (selection function, identifier) for all 3 x 256 identifier values: non-trivial when the identifier is accepted; states = selectable parameter sets; transitions = obligations evaluated.",
     "assumptions": ["GMP primality (64 Miller-Rabin rounds)", "reference group laws and tower"],
     "jobs": [
@@ -161,13 +162,14 @@ PROPS["C13"] = {
     "level": "model_checking",
     "technique": "exhaustive enumeration of complete input spaces of the map-from-randomness entry point on tiny curves (every pair of 2-byte strings = all p^2 pairs of field elements incl. every exceptional element and the non-canonical values >= p), message-length x pattern and exceptional-element alphabets at shipped sizes, against the documented construction re-implemented from its definition (expand_message_xmd on OpenSSL SHA-256, simplified SWU / Shallue-van de Woestijne on GMP, stated sign rule, stored isogeny, reference addition and cofactor clearing)",
     "level_text": "Complete: on five ~1000-point tiny curves (a b != 0: simplified SWU; a = 0: Shallue-van de Woestijne; prime order and cofactor 2/4) ep_map_rnd sees every pair (u0, u1) in [0, p + 6)^2 plus the top of the 16-bit range; on three 16-bit curves every u0 in [0, 65536) against a small alphabet of u1 and vice versa; each result must be on the curve, in the order-r subgroup and EQUAL to the reference construction; a too-short string must be refused. Shipped sizes (six 256-bit curves; B12_P381 with its isogeny in the 381-bit build; the 255-bit build): ep_map_sswum, ep_map_basic, ep_map_swift, ep_map for every message length 0..120 (thorough 0..200, 255, 256, 257, 1000) x 3 byte patterns: valid, deterministic, sensitive to the last bit, and (sswum, ep_map, basic) equal to the reference; ep_map_rnd on a field-element alphabet containing 0, 1, p-1, p, p+1, 2p, the maximal string and the reference-computed exceptional elements of each map. Map constants are re-derived from Z and the curve and compared (c3 only through its defining square). ep2_map_sswum/basic/swift, g2_map, g1_map, eb_map: valid subgroup point, deterministic, input-sensitive.",
-    "level_note": "Trusted: OpenSSL SHA-256 under the reference expand_message_xmd, GMP, reference group laws. The reference follows the source where the papers leave a choice: domain-separation tag = the project string INCLUDING its terminator for the SWU/SvdW entry points and without it for try-and-increment; sign of y made equal to the parity of t in the library's internal (Montgomery) representation; cofactor clearing by h, or by 1 - x on BLS12 curves. SwiftEC and the F_p^2 / binary / Edwards maps are judged for validity, determinism and input sensitivity only (no independent re-implementation).",
+    "level_note": "Trusted: OpenSSL SHA-256 under the reference expand_message_xmd, GMP, reference group laws. The reference follows the source where the papers leave a choice: domain-separation tag = the project string INCLUDING its terminator for the SWU/SvdW entry points and without it for try-and-increment; sign of y made equal to the parity of t in the library's internal (Montgomery) representation; cofactor clearing by h, or by 1 - x on BLS12 curves. SwiftEC and the F_p^2 / binary / Edwards maps are judged for validity, determinism and input sensitivity only (no independent re-implementation). The thorough tier also runs the 446-bit builds (BN_P446; B12_P446 where its twist is defined, i.e. under FP_QNRES).",
     "rule": "cases are (curve, u0, u1) or (curve, entry point, message length, pattern); all non-trivial; distinct by 64-bit hash; states = first elements of the complete pair spaces; transitions = results judged.",
     "assumptions": ["OpenSSL SHA-256", "reference maps written from RFC 9380 6.6.2 and draft-06 6.6.1", "calls inside RLC_TRY"],
     "jobs": [
         {"name": "map-w8", "world": "W8", "src": "props/C13_map.c", "ldflags": ["-lcrypto"], "share": 0.5},
         {"name": "map-w64", "world": "W64", "src": "props/C13_map.c", "ldflags": ["-lcrypto"], "share": 0.4},
         {"name": "map-w64-381", "world": "W64-381", "src": "props/C13_map.c", "ldflags": ["-lcrypto"], "share": 0.3},
+        {"name": "map-w64-446", "world": "W64-446", "src": "props/C13_map.c", "ldflags": ["-lcrypto"], "tiers": ("thorough",)},
         {"name": "map-w64-255", "world": "W64-255", "src": "props/C13_map.c", "ldflags": ["-lcrypto"]},
     ],
 }
